@@ -14,6 +14,8 @@
      generated with that default value;
  (iii) mfront-query on the same files against the declarations.
 """
+import contextlib
+import fcntl
 import os
 import random
 import re
@@ -34,6 +36,21 @@ TENSOR_TYPES = {"StrainStensor": 1, "Stensor": 1, "StressStensor": 1, "TVector":
 GEN_SITE = "mfront/src/CodeGeneratorUtilities.cxx"
 SYM_SITE = "mfront/src/SymbolsGenerator.cxx"
 ELM_SITE = "src/System/ExternalLibraryManager.cxx"
+
+
+
+
+@contextlib.contextmanager
+def build_tree_in_use():
+    """shared hold of the build-tree lock while binaries / libraries of the build tree are executed or linked: a concurrent
+    `ensure_targets` of another check (exclusive lock) cannot relink them under our feet"""
+    f = open(os.path.join(vlib.VERIF, "work", ".ninja.lock"), "a")
+    fcntl.flock(f, fcntl.LOCK_SH)
+    try:
+        yield
+    finally:
+        fcntl.flock(f, fcntl.LOCK_UN)
+        f.close()
 
 
 def bits(x):
@@ -530,7 +547,8 @@ def mfront_env():
 
 def run_tool(ck, tool, args, cwd, timeout=280):
     exe = os.path.join(vlib.BUILD, {"mfront": "mfront/src/mfront", "mfront-query": "mfront-query/src/mfront-query"}[tool])
-    return ck.run([exe] + args, cwd=cwd, timeout=timeout, env=mfront_env())
+    with build_tree_in_use():
+        return ck.run([exe] + args, cwd=cwd, timeout=timeout, env=mfront_env())
 
 
 DEFS = ("TFEL_ARCH64", "LINUX64", "UNIX64", "TFEL_VERIF_HOOKS")
@@ -539,7 +557,13 @@ DEFS = ("TFEL_ARCH64", "LINUX64", "UNIX64", "TFEL_VERIF_HOOKS")
 def build_library(ck, name, sources, gendir):
     inc = [os.path.join(gendir, "include"), vlib.REPO + "/mfront/include"]
     libs = ck.libflags("TFELMaterial", "TFELMath", "TFELUtilities", "TFELException")
-    return ck.cxx(name, sources, flags=("-w", "-fPIC", "-shared"), includes=inc, libs=libs, opt="-O0")
+    with build_tree_in_use():
+        return ck.cxx(name, sources, flags=("-w", "-fPIC", "-shared"), includes=inc, libs=libs, opt="-O0")
+
+
+def locked_cxx(ck, *a, **k):
+    with build_tree_in_use():
+        return ck.cxx(*a, **k)
 
 
 def run(ck):
@@ -732,7 +756,7 @@ def run(ck):
     jobs.append(("libC45_MP.so", [tu]))
     libs = {}
     with ThreadPoolExecutor(max_workers=2) as ex:
-        hfut = ex.submit(ck.cxx, "c45h", ["C45/harness.cxx", vlib.REPO + "/src/System/ExternalLibraryManager.cxx"],
+        hfut = ex.submit(locked_cxx, ck, "c45h", ["C45/harness.cxx", vlib.REPO + "/src/System/ExternalLibraryManager.cxx"],
                          includes=[vlib.REPO + "/mfront/include"], defines=DEFS, flags=("-w",), opt="-O0",
                          libs=ck.libflags("TFELSystem", "TFELException") + ["-ldl"])
         futs = {n: ex.submit(build_library, ck, n, s, gendir) for n, s in jobs}
@@ -809,7 +833,8 @@ def run(ck):
                 ask(mplib, tf, None, call, None, "twin", rep)
                 ask(mplib, m.f, None, call, "same-as-previous", "setparameter", dict(rep, arguments=[repr(x) for x in a]), ("twin", newv))
                 stats["setparameter_calls"] += 1
-    pi = ck.run([harness], input="".join(lines), timeout=280, env=mfront_env())
+    with build_tree_in_use():
+        pi = ck.run([harness], input="".join(lines), timeout=280, env=mfront_env())
     got = pi.stdout.splitlines()
     if pi.returncode != 0 or len(got) != len(lines):
         note("harness-crash", "corr", "the ExternalLibraryManager harness aborted (exit %s)" % pi.returncode, {"stderr": pi.stderr[-1500:]})
